@@ -43,16 +43,32 @@ def oracle(c, r, refout):
     last = r["obs"][-1]
     limit = sum(c["ks"])
     converged = refout[-1]["converged"] if not c.get("directed") else last["iteration"] < limit
-    if not converged:
-        return None, None
     spec = c["spec"]
     ref = mdpgen.Ref(spec)
     eps = F(c["eps"])
     try:
         gstar, hstar, _ = ref.optimal_gain()
-        gpol, _ = ref.policy_gain(last["policy"])
     except ZeroDivisionError:
         return None, None  # not unichain for the exact solver: outside the property
+    # boundedness, converged or not (theorem rvi_no_drift): every observed state stays within w = span(v0 - h*) of the bias
+    v0 = solverun.fracs(r["obs"][0]["values"]) if "values" in r["obs"][0] else None
+    if v0 is not None and len(r["obs"]) > 1:
+        dd = [a - b for a, b in zip(v0, hstar)]
+        w = max(dd) - min(dd)
+        for o in r["obs"][1:]:
+            if o["iteration"] < 1:
+                continue
+            gj, vj = F(o["gain"]), solverun.fracs(o["values"])
+            worst = max(abs((vj[s] - gj) - (hstar[s] - hstar[-1])) for s in range(len(vj)))
+            if worst > w or abs(gj - gstar) > w:
+                return (f"after {o['iteration']} iterations the relative values are {worst} away from the bias differences and the gain estimate {abs(gj - gstar)} "
+                        f"away from the optimal gain; both are bounded by span(v0 - h*) = {w} for every number of iterations"), f"drift:{c['seed']}"
+    if not converged:
+        return None, None
+    try:
+        gpol, _ = ref.policy_gain(last["policy"])
+    except ZeroDivisionError:
+        return None, None
     gain = F(last["gain"])
     vals = solverun.fracs(last["values"])
     if not abs(gain - gstar) < eps:
